@@ -463,6 +463,8 @@ def s_bath(draw, tier):
             "dt": draw(st.sampled_from([0.1, 0.1, 0.05, 0.125])), "w1": draw(st.sampled_from([0.9, 1.7, 2.5])),
             "w2": draw(st.sampled_from([None, 0.9, 1.7])), "k1": draw(st.integers(1, 3)), "k2": draw(st.integers(3, 4)),
             "dagg": draw(st.sampled_from([[1, 0], [0, 1], [0, 0], [1, 1]])), "dw": draw(st.sampled_from([1.0, 0.5])),
+            # the whole pure-dephasing model written in a rotated basis (coupling operator not diagonal, complex)
+            "V": draw(st.one_of(st.just({"kind": "identity"}), gens.unitary_spec(d, allow_identity=False))),
             # further queries to the SAME object (repeated arguments with other band widths / pictures / flags)
             "queries": draw(st.lists(st.fixed_dictionaries({
                 "kind": st.sampled_from(["correlation", "correlation", "occupation"]),
@@ -479,12 +481,18 @@ def run_bath(case):
     o = np.array(case["o"], dtype=float)
     if o.max() == o.min():
         o[0] += 0.5
-    O = np.diag(o)
-    H = np.diag(np.array(case["E"], dtype=float))
+    O = np.diag(o).astype(complex)
+    H = np.diag(np.array(case["E"], dtype=float)).astype(complex)
+    rho0 = gens.build_dm(case["rho0"])
+    Vs = case.get("V") or {"kind": "identity"}
+    if Vs["kind"] != "identity":
+        V = gens.build_unitary(Vs, d)
+        O, H, rho0 = V @ O @ V.conj().T, V @ H @ V.conj().T, V @ rho0 @ V.conj().T
+        O, H = (O + O.conj().T) / 2, (H + H.conj().T) / 2
+        out.label("rotated-coupling", "complex-coupling" if np.abs(O.imag).max() > 1e-12 else "real-coupling")
     corr = oqupy.PowerLawSD(case["alpha"], 1.0, 3.0, temperature=T)
     bath = oqupy.Bath(O, corr)
     system = oqupy.System(H)
-    rho0 = gens.build_dm(case["rho0"])
     pt = oqupy.pt_tempo_compute(bath, 0.0, (N + 0.5) * dt, oqupy.TempoParameters(dt=dt, epsrel=1e-9), progress_type="silent")
     bd = oqupy.TwoTimeBathCorrelations(system, bath, pt, initial_state=rho0)
     O2 = float(np.trace(O @ O @ rho0).real)
